@@ -39,7 +39,8 @@ CHECKS = {
         text='Theorems in coq/Properties/C03.v for all strings: accepted only if policy-valid (Spec/Policy.v) after trimming; '
              'policy-valid strings whose revision (or upstream when there is none) ends in an alphanumeric are accepted; '
              'rejection is ValueError and nothing else; the decomposition is dpkg\'s split (first colon, last hyphen, '
-             'defaults 0 and "0"). The recogniser model is co-executed with Version.from_string and with the compiled pattern '
+             'defaults 0 and "0"); compare_versions and eval_constraint accept exactly the strings from_string accepts and reject the '
+             'others with ValueError. The recogniser model is co-executed with Version.from_string and with the compiled pattern '
              'object on all strings of length <=5/6 over a 13-character representative alphabet, every code point at four '
              'positions (thorough) and grammar-driven accepted/rejected strings.',
         note=TRUST + 'Outside the model: CPython\'s 4300-digit limit of int(str) for epochs.',
